@@ -40,7 +40,8 @@ type scenario struct {
 	Sibling     int     `json:"failed_attempts_on_the_holders_own_lock_object,omitempty"` // live cases: other goroutines of the holder's process try to acquire through the SAME lock object while it is held (and fail)
 	BeatFault   int     `json:"transient_fault_on_holder_op,omitempty"`                   // live cases: the j-th backend operation the holder issues after acquiring (a heartbeat open/write/stamp) fails once
 	BeatKind    string  `json:"transient_fault_kind,omitempty"`
-	Previous    int     `json:"previous_holders"` // idle earlier holders of the same lock id still alive
+	Backend     string  `json:"backend,omitempty"` // "", "os", "mem" (""= by scenario index)`
+	Previous    int     `json:"previous_holders"`  // idle earlier holders of the same lock id still alive
 	Policy      string  `json:"policy"`
 	AdvanceP    float64 `json:"advance_p"`
 	Index       int     `json:"index"`
@@ -120,7 +121,13 @@ func runScenario(r *vrun.Run, sc scenario, keep bool) *result {
 	res.s = s
 	res.deadlock = sched.Bubble(func() {
 		sub, id := lockh.Names(sc.Index)
-		w := lockh.NewWorld(filepath.Join(dir, sub), id, s)
+		missingDir := false
+		var w *lockh.World
+		if sc.Backend == "mem" || (sc.Backend == "" && lockh.MemBackend(sc.Index)) {
+			w = lockh.NewMemWorld(filepath.Join(dir, sub), id, s, !missingDir)
+		} else {
+			w = lockh.NewWorld(filepath.Join(dir, sub), id, s)
+		}
 		w.KeepEvents = keep
 		res.w = w
 		s.Run(func() {
@@ -451,8 +458,20 @@ func analyse(r *vrun.Run, res *result) {
 		}
 		mustTrue, sawTrue := 0, false
 		var firstTrue time.Time
+		// once somebody has begun to release the dead holder's lock (first entry removed from the lock directory) the
+		// directory is in a transitional state: readings which end after that instant are not judged
+		var releaseBegun int64
+		_, _, incs := w.Snapshot()
+		for _, in := range incs {
+			if in.ID == res.holderInc {
+				releaseBegun = in.FirstRemoveInSeq
+			}
+		}
 		for _, o := range res.obs {
 			if o.Inc0 != res.holderInc || o.Inc1 != res.holderInc || o.CallT.Before(res.deathT) {
+				continue
+			}
+			if releaseBegun != 0 && o.Ret > releaseBegun {
 				continue
 			}
 			ageAtCall := o.CallT.Sub(last)
@@ -573,12 +592,22 @@ func main() {
 				n = r.Pick(1, 4)
 			}
 			for k := 0; k < n; k++ {
-				cases = append(cases, scenario{Kind: "live", HoldPeriods: h, Observers: o, Acquire: acq[(k+o)%3], Previous: k % 2, Takeover: k%3 == 2, Sibling: []int{0, 0, 1, 3}[(k+h)%4], BeatFault: []int{0, 1, 0, 2, 3, 0, 5, 8, 0, 13}[(k+o+h)%10], BeatKind: []string{"err-before", "err-after", "enoent-before"}[(k+o)%3], Policy: pols[k%2], AdvanceP: []float64{0.2, 0.5}[k%2], Stream: "live"})
+				cases = append(cases, scenario{Kind: "live", HoldPeriods: h, Observers: o, Acquire: acq[(k+o)%3], Previous: k % 2, Takeover: k%3 == 2, Sibling: []int{0, 0, 1, 3}[(k+h)%4], BeatFault: []int{0, 1, 10, 2, 3, 0, 5, 8, 14, 13, 6, 0, 18, 9, 22, 11, 17, 0, 26, 7}[(k+o+h+2*len(cases))%20], BeatKind: []string{"err-before", "err-after", "enoent-before"}[(k+o)%3], Policy: pols[k%2], AdvanceP: []float64{0.2, 0.5}[k%2], Stream: "live"})
 			}
 		}
 	}
 	if r.Quick() {
 		cases = append(cases, scenario{Kind: "live", HoldPeriods: 500, Observers: 3, Acquire: "try", Policy: "random", AdvanceP: 0.5, Stream: "live"})
+	}
+	// live holds of 8 periods with one transient failure on the j-th operation of the holder's heartbeat, for every j of
+	// the first five beats, on both backends
+	for j := 1; j <= 30; j++ {
+		for bi, be := range []string{"os", "mem"} {
+			for ki, kind := range []string{"err-before", "err-after"} {
+				cases = append(cases, scenario{Kind: "live", HoldPeriods: 8, Observers: 3 + (j+bi)%3, Acquire: "try", BeatFault: j, BeatKind: kind, Backend: be,
+					Policy: pols[(j+ki)%2], AdvanceP: []float64{0.2, 0.5}[j%2], Stream: "live-fault"})
+			}
+		}
 	}
 	// hand-over between two live holders (HoldPeriods = cycles per holder)
 	for k := 0; k < r.Pick(120, 3000); k++ {
